@@ -4,7 +4,8 @@ Decided: every literal quadrature table is a correct rule (exact rational moment
 the fan triangulation covers the polygon and the quadrature loops pair nodes and weights correctly; on the Cartesian path all
 of x, y, z reach the Jacobian (constant propagation of `dim`); degrees are converted before the spherical->Cartesian map;
 corners are gathered per face through the n_nodes_per_face prefix; face_areas cache = default-argument computation.
-who may store face_areas (the getter/setter and the MPAS reader, whose file areas are divided by sphere_radius**2)."""
+who may store face_areas (the getter/setter and the MPAS reader, whose file areas are divided by sphere_radius**2).
+The grid's face_areas are not assigned through the setter from a computation with the caller's rule/order; library tolerances keep the pinned values."""
 
 import ast
 from fractions import Fraction
